@@ -27,7 +27,7 @@ type exCase struct {
 	Cfg     hnCfg      `json:"cfg"`
 	Dim     int        `json:"dim"`
 	Vecs    [][]uint32 `json:"vecs"`
-	Order   []int      `json:"order"`  // insertion order: indices into Vecs (item i has id i)
+	Order   []int      `json:"order"` // insertion order: indices into Vecs (item i has id i)
 	Levels  []int      `json:"levels"`
 	Queries []exQuery  `json:"queries"`
 }
